@@ -3,7 +3,8 @@ replay operators over run-time generated time-series schemas.
 
 Case lines
   1 mode start end [rstart rend]   mode 0: capture/apply probe, run [start,end)
-                                   mode 1: record run [start,end), then replay run [rstart,rend)
+                                   mode 1: dense record run [start,end), then replay run [rstart,rend)
+                                   mode 2: the same through the sparse :memory: recording (recordable_id)
   2 <schema>                       1=TS<int> 2=SIGNAL 3=TSS<int> 4 e=TSD<int,e> 5 n e=TSL<e,n>
                                    6 k f1..fk=TSB 7 p m=TSW<int,p,m>
   3 t np p1..pn op arg             one mutation at time t through a path (TSD key / TSL,TSB index)
@@ -16,6 +17,7 @@ Observation lines (second run of mode 1: code + 100)
   25 t obs <delta> delta captured again from the copy (only if the copy ticked)
   24 t eq cmod deq Value::equals(source.value, copy.value); copy modified; delta.equals(delta2) (-1: none)
   30 i <delta|0>   entry i of the buffer written by the real record node (0 = hole); 130: second run
+  31 i t <delta>   entry i of the sparse recording (time t); 131: second run
   28 0             end;  18 1 rejected case;  19 1 exception escaped;  29 t 1 exception in the probe
 """
 import random
@@ -28,17 +30,16 @@ BUDGET = {"quick": 500, "thorough": 40000}
 
 TS, SIGNAL, TSS, TSD, TSL, TSB, TSW = 1, 2, 3, 4, 5, 6, 7
 
-# failure kinds; the first four are distinct, explained deviations (see docs/notes-delta.md)
+# failure kinds; the first three are distinct, explained deviations (see docs/notes-delta.md)
 K_TSB = "tsb_default_validates_unset_field"
 K_EMPTY = "empty_tick_not_replayed"
 K_UNSET = "unset_child_key_not_replayed"
-K_RESURRECT = "reinserted_key_child_change_lost"
 K_VALUE = "roundtrip_value"
 K_DELTA = "roundtrip_delta"
 K_TICK = "roundtrip_tick"
 K_STREAM = "replay_stream"
 K_SHAPE = "malformed_output"
-PROP_KINDS = {"C20": {K_TSB, K_EMPTY, K_UNSET, K_RESURRECT, K_VALUE, K_DELTA, K_TICK, K_STREAM, K_SHAPE}}
+PROP_KINDS = {"C20": {K_TSB, K_EMPTY, K_UNSET, K_VALUE, K_DELTA, K_TICK, K_STREAM, K_SHAPE}}
 
 
 # ---------------------------------------------------------------- shapes
@@ -219,8 +220,6 @@ def _gen_op(rng, sh, sd, path, t, ops, clean, pushes):
             sd.kid(x).last_t = t
         elif r < 0.78:
             x = rng.choice(keys)
-            if clean and sd.kid(x).last_t == t:
-                return                      # child already ticked this cycle: erasing it now loses the change
             ops.append((t, path, 7, x))
             sd.elems.discard(x)
             sd.kids.pop(x, None)
@@ -230,8 +229,6 @@ def _gen_op(rng, sh, sd, path, t, ops, clean, pushes):
                 _gen_op(rng, sh.kids[0], sd.kid(x), path + [x], t, ops, clean, pushes)
                 sd.kid(x).last_t = t
         elif r < 0.83 and keys:
-            if clean and any(sd.kid(x).last_t == t for x in keys):
-                return
             ops.append((t, path, 6, 0))
             sd.elems.clear()
             sd.kids.clear()
@@ -288,7 +285,8 @@ def gen(rng, tier, prop):
         return _malformed(rng)
     maxdepth = 3
     sh = gen_shape(rng, 1, maxdepth)
-    mode = 0 if rng.random() < 0.6 else 1
+    r = rng.random()
+    mode = 0 if r < 0.5 else (1 if r < 0.75 else 2)
     clean = rng.random() < 0.6
     start = 1 if rng.random() < 0.7 else rng.randint(2, 5)
     span = rng.randint(4, 12 if tier == "quick" else 20)
@@ -304,6 +302,15 @@ def gen(rng, tier, prop):
             _gen_op(rng, sh, sd, [], t, ops, clean, pushes)
     if mode == 0:
         case = [[1, 0, start, end]]
+    elif mode == 2:
+        # sparse absolute-time recording: the replay window may start after the first entry and end early
+        r = rng.random()
+        if r < 0.35:
+            rstart = rng.randint(1, cycles[0])
+        else:
+            rstart = rng.randint(cycles[0], cycles[-1] + 1)
+        rend = max(rstart + 1, rng.choice([end, end + 1, rng.randint(rstart + 1, end + 1)]))
+        case = [[1, 2, start, end, rstart, rend]]
     else:
         rstart = 1 if rng.random() < 0.9 else rng.randint(2, 4)
         rend = rstart + (end - 1) + rng.choice([1, 1, 2, 0, -1 if end > 3 else 1])
@@ -337,6 +344,20 @@ def enumerate_cases(prop):
                     case.append([3, 1, len(path)] + list(path) + [op, arg])
                 for (path, op, arg) in s2:
                     case.append([3, 3, len(path)] + list(path) + [op, arg])
+                yield case
+    # every replay window over a few fixed sparse recordings (late start, early end)
+    hists = [
+        ([TS], [(1, [], 1, 10), (2, [], 1, 20), (4, [], 1, 30), (6, [], 1, 40)]),
+        ([TSS], [(1, [], 3, 1), (2, [], 3, 2), (4, [], 4, 1), (4, [], 3, 3), (6, [], 6, 0)]),
+        ([TSD, TSS], [(2, [1], 3, 1), (3, [2], 3, 2), (3, [1], 3, 3), (5, [], 7, 1), (6, [2], 4, 2)]),
+        ([TSW, 2, 1], [(1, [], 9, 1), (3, [], 9, 2), (4, [], 9, 3), (6, [], 9, 4)]),
+    ]
+    for toks, ops in hists:
+        for rs in range(1, 8):
+            for re_ in range(rs + 1, 9):
+                case = [[1, 2, 1, 8, rs, re_], [2] + toks]
+                for (t, path, op, arg) in ops:
+                    case.append([3, t, len(path)] + list(path) + [op, arg])
                 yield case
 
 
@@ -527,9 +548,8 @@ def _diff(sh, a, b, d, out, in_bundle, path=(), cyc=None):
                 out.append(K_UNSET)          # key created without a value: in the value, not in the delta
                 differs = True
                 continue
-            if ca["mod"] and ca["valid"] and key not in dm and d is not None and \
-                    ((path, key) in cyc["erased"] or path in cyc["cleared"]):
-                out.append(K_RESURRECT)      # child changed, key erased and re-inserted: the delta omits it
+            if ca["mod"] and ca["valid"] and key not in dm and d is not None:
+                out.append(K_DELTA)          # the child changed this cycle but the dictionary's delta omits it
                 differs = True
                 continue
             if cb is None:
@@ -670,6 +690,32 @@ def oracle(prop, case, impl_out):
             src, dl = _lines(impl_out, 22), _lines(impl_out, 21)
             rsrc, rdl = _lines(impl_out, 122), _lines(impl_out, 121)
             buf, buf2 = _lines(impl_out, 30), _lines(impl_out, 130)
+            if hdr[1] == 2:
+                # the sparse recording keeps absolute times: one (time, delta) entry per tick, in order;
+                # seen as a cycle-aligned buffer it obeys the same statements with no shift
+                sb = [l for l in impl_out if l and l[0] == 31]
+                sb2 = [l for l in impl_out if l and l[0] == 131]
+                times = [l[2] for l in sb]
+                if times != sorted(src) or [l[1] for l in sb] != list(range(len(sb))):
+                    fails.append((K_STREAM, "sparse recording %s is not one entry per tick %s" % (times, sorted(src))))
+                buf = {i: [0] for i in range(max(times))} if times else {}
+                for l in sb:
+                    buf[l[2] - 1] = l[3:]
+                buf2 = {i: [0] for i in range(max(l[2] for l in sb2))} if sb2 else {}
+                for l in sb2:
+                    buf2[l[2] - 1] = l[3:]
+                shift = 0
+                if times and rstart > times[0]:
+                    # a replay window that starts after the first entry: the deltas are applied to an
+                    # output without the earlier history, so only this much is demanded of it: it
+                    # ticks in recorded cycles of the window only (an older entry is never applied)
+                    for rt in sorted(rsrc):
+                        if rt not in src or rt < rstart or rt >= rend:
+                            fails.append((K_STREAM, "replay window [%d,%d): ticked at %d, not a recorded cycle of the window" % (rstart, rend, rt)))
+                    for l in sb2:
+                        if l[2] not in src or l[2] < rstart:
+                            fails.append((K_STREAM, "re-recorded entry at %d outside the replay window" % l[2]))
+                    src, rsrc, buf, buf2 = {}, {}, {}, {}
             # the recording is cycle aligned: entry i is the observable tick at MIN_ST + i
             for t in sorted(src):
                 obs = dl[t][0]
@@ -815,6 +861,15 @@ def stats(case, impl_out):
             elif any(path[:len(e)] == e for e in erased):
                 add("remove_readd_same_cycle")
                 break
+    if hdr[1] == 2:
+        ets = [l[2] for l in impl_out if l and l[0] == 31]
+        add("sparse_entries", len(ets))
+        if ets and len(hdr) >= 6:
+            if hdr[4] > ets[0]:
+                add("sparse_late_window_cases")
+                add("sparse_entries_older_than_window", sum(1 for x in ets if x < hdr[4]))
+            if hdr[5] <= ets[-1]:
+                add("sparse_early_end_cases")
     for l in impl_out:
         if l[0] in (21, 121):
             try:
